@@ -102,6 +102,7 @@ For example, the following all encode the same number at the edge of decimal64's
 #![deny(missing_docs)]
 #![allow(const_item_mutation, clippy::derivable_impls, clippy::comparison_chain)]
 #![cfg_attr(not(any(feature = "std", test)), no_std)]
+#![allow(unexpected_cfgs)] // `decstr_verif`: see `verif_hooks`
 
 extern crate core;
 
@@ -130,6 +131,8 @@ mod convert;
 mod error;
 mod num;
 mod text;
+#[cfg(decstr_verif)]
+#[doc(hidden)] pub mod verif_hooks;
 
 pub use self::{
     bitstring::*,
